@@ -43,7 +43,7 @@ def make(prop, tier):
     for t, tl in [('cnl::elastic_scaled_integer<24, cnl::power<-10>>', 'esi24:-10'), ('cnl::scaled_integer<cnl::wide_integer<100>, cnl::power<-50>>', 'wide100:-50'),
                   ('cnl::static_number<30, -12>', 'static_number30:-12')]:
         regs.append('c13::Chars<%s, %d, false>::reg("scaled|%s")' % (t, prop, tl))
-    cases = 20000 if quick else 300000
+    cases = 60000 if quick else 500000
     units = [Unit('C%d-gxx-%d' % (prop, i), 'gxx', 'props/C13.h', part, rc_cases=cases, enum_max=2 ** 14 if quick else 2 ** 22, chunk=5, tick_limit=100000)
              for i, part in enumerate(split(regs, 16))]
     cl = [r for r in regs if '"int|' in r][:6] + [r for r in regs if 'scaled|int:' in r][:6]
